@@ -31,6 +31,8 @@ def ann_src(a) -> str:
         return k
     if k == "cls":
         return a[1]
+    if k == "qcls":
+        return a[2]            # written by its dotted path (`import pkg.mod` is in scope)
     if k == "list":
         return f"list[{ann_src(a[1])}]"
     if k == "set":
@@ -70,7 +72,7 @@ def ann_classes(a, out: set) -> None:
                     ann_classes(y, out)
 
 
-_KINDS = {"int", "str", "bool", "float", "None", "Any", "cls", "list", "set", "seq", "coll", "tuple", "dict", "map",
+_KINDS = {"int", "str", "bool", "float", "None", "Any", "cls", "qcls", "list", "set", "seq", "coll", "tuple", "dict", "map",
           "opt", "union", "or", "lit", "callable"}
 
 
@@ -90,7 +92,7 @@ def expected_api_type(a):
         return NONE_T
     if k == "Any":
         return named("Any", "typing.Any")
-    if k == "cls":
+    if k in ("cls", "qcls"):
         return named(a[1], a[2])
     if k in ("list", "seq", "coll"):
         return {"kind": "ListType", "types": [expected_api_type(a[1])]}
@@ -286,7 +288,7 @@ def doc_block(style: str, desc: str, params: list[tuple[str, str, str]], result:
 class PkgGen:
     def __init__(self, rng: random.Random, *, kw_rate=0.05, style="plaintext", docs=0.5, reexports=True,
                  test_dirs=False, private_rate=0.2, infer_returns=0.15, n_modules=(2, 4), root_name="pkg",
-                 cross_refs=True, doc_types="none", unique_top_names=True, ties=0.0, aliases=0.0, chains=0.0):
+                 cross_refs=True, doc_types="none", unique_top_names=True, ties=0.0, aliases=0.0, chains=0.0, decoys=0.0):
         self.r = rng
         self.names = Names(rng, kw_rate)
         self.style = style
@@ -310,6 +312,9 @@ class PkgGen:
         # rate of modules with a private inheritance chain shared by two public classes, one of which overrides a
         # method of the farther private ancestor (skipping the nearer one)
         self.chains = chains
+        # rate of packages with a RELATIVE re-export from a private module of the root package plus a decoy module with the
+        # same trailing path and the same declaration names in a sub-package (which stays private)
+        self.decoys = decoys
         self.global_used: set = set()
         self.counter = 0
 
@@ -533,6 +538,10 @@ class PkgGen:
             c["classes"].append(k)
         c["extras"] = {"setters": r.random() < 0.5, "overload": r.random() < 0.15, "subscript": r.random() < 0.4,
                        "seq_base": r.random() < 0.1 and not c["bases"]}
+        if c["extras"]["subscript"] and c["init"] is not None and not ({"zz_w", "zz_h"} & {a["name"] for a in c["attrs"] + c["inst_attrs"]}):
+            # instance attributes assigned by TUPLE UNPACKING in the constructor (`self.zz_w, self.zz_h = 1, 2`); no draw
+            c["inst_attrs"] += [{"name": "zz_w", "ann": None, "value": "1", "unpacked": True},
+                                {"name": "zz_h", "ann": None, "value": "2", "unpacked": True}]
         # an overloaded static method: its implementation is itself decorated
         c["extras"]["overload_static"] = c["extras"]["overload"] and len(name) % 2 == 0
         # nested classes are written before the attributes and the constructor of their owner
@@ -590,6 +599,9 @@ class PkgGen:
         if r.random() < 0.25:
             en = self.names.pick(["Color", "Mode", "my_enum"], used, self.private_rate * 0.5)
             members = r.sample(["RED", "GREEN", "blue_value", "val_x"], r.choice([0, 1, 2, 3]))
+            if len(en) % 2 == 0:
+                # a member with a leading underscore is a real member (only _sunder_ / __dunder__ names are not); no draw
+                members.append("_LEGACY")
             m["enums"].append({"kind": "enum", "name": en, "qname": f"{qn}.{en}", "members": members, "method": r.random() < 0.5,
                                "doc": self.marker(f"enum {en}") if r.random() < self.docs else ""})
         ag = AnnGen(r, local + (avail if self.cross_refs else []))
@@ -661,6 +673,42 @@ class PkgGen:
                             inits[pk].append({"form": "star", "module": m["qname"]})
                         else:
                             inits[pk].append({"form": "module", "module": m["qname"], "name": m["name"], "alias": None})
+        if self.doc_types == "mixed" and self.docs > 0 and self.style != "plaintext":
+            # two DIFFERENT classes with one simple name; a function hinted with the first and documented with the second
+            # (a real conflict of the two type sources that a comparison by simple name would miss).  No random draws.
+            def zz_cfg(modname):
+                qn = f"{self.root}.{modname}"
+                c = {"kind": "class", "name": "ZzConfig", "qname": f"{qn}.ZzConfig", "bases": [], "attrs": [], "init": None,
+                     "inst_attrs": [], "methods": [], "classes": [], "doc": self.marker(f"class ZzConfig of {modname}"), "extras": {}}
+                return {"kind": "module", "name": modname, "pkg": [self.root], "qname": qn, "classes": [c], "functions": [],
+                        "enums": [], "doc": "", "imports": set(), "aliases": False, "overload_fn": False}
+            ma, mb = zz_cfg("zz_cfg_a"), zz_cfg("zz_cfg_b")
+            hint = ("cls", "ZzConfig", ma["classes"][0]["qname"])
+            other = ("qcls", "ZzConfig", mb["classes"][0]["qname"])
+            f = {"kind": "function", "name": "zz_conflict", "method_kind": None,
+                 "params": [{"name": "zz_c", "kind": "POSITION_OR_NAME", "ann": hint, "default": None,
+                             "doc": self.marker("param zz_c"), "doc_type": (other, False)}],
+                 "ret": hint, "returns": None, "doc": self.marker("function zz_conflict"), "result_doc": self.marker("result of zz_conflict"),
+                 "is_property": False, "result_doc_type": (other, False), "rest_type_first": True}
+            mu = {"kind": "module", "name": "zz_cfg_user", "pkg": [self.root], "qname": f"{self.root}.zz_cfg_user", "classes": [],
+                  "functions": [f], "enums": [], "doc": "", "imports": set(), "aliases": False, "overload_fn": False,
+                  "plain_imports": [mb["qname"]]}
+            modules += [ma, mb, mu]
+        sub = [p for p in pkgs if len(p) == 2 and not (set(p) & EXCL)]
+        if self.decoys > 0 and sub and (len(modules[0]["name"]) * 7 + len(modules)) % 100 < self.decoys * 100:
+            def zz_module(pk):
+                qn = ".".join(pk + ["_zz_impl"])
+                fn = lambda n, kind, ret: {"kind": "function", "name": n, "method_kind": kind, "params": [], "ret": ret, "returns": None,
+                                           "doc": "", "result_doc": "", "is_property": False, "result_doc_type": None, "rest_type_first": True}
+                c = {"kind": "class", "name": "ZzEngine", "qname": f"{qn}.ZzEngine", "bases": [], "attrs": [], "init": None, "inst_attrs": [],
+                     "methods": [fn("zz_run", "instance", ("int",))], "classes": [], "doc": "", "extras": {}}
+                return {"kind": "module", "name": "_zz_impl", "pkg": list(pk), "qname": qn, "classes": [c],
+                        "functions": [fn("_zz_build", None, ("str",))], "enums": [], "doc": "", "imports": set(), "aliases": False,
+                        "overload_fn": False}
+            modules.append(zz_module([self.root]))
+            modules.append(zz_module(sub[0]))
+            inits[(self.root,)].append({"form": "name", "module": f"{self.root}._zz_impl", "name": "ZzEngine", "alias": None, "relative": True})
+            inits[(self.root,)].append({"form": "name", "module": f"{self.root}._zz_impl", "name": "_zz_build", "alias": "zz_build", "relative": True})
         return {"root": self.root, "packages": [list(p) for p in inits], "modules": modules,
                 "inits": {"/".join(k): v for k, v in inits.items()}, "style": self.style}
 
@@ -758,7 +806,10 @@ def class_src(c, indent: str, style: str) -> list[str]:
     if c["init"] is not None:
         f = dict(c["init"])
         f["extra_body"] = [f"self.{a['name']}" + (f": {ann_src(a['ann'])}" if a["ann"] is not None else "") + f" = {a['value']}"
-                           for a in c["inst_attrs"]] or ["pass"]
+                           for a in c["inst_attrs"] if not a.get("unpacked")] or ["pass"]
+        unpacked = [a for a in c["inst_attrs"] if a.get("unpacked")]
+        if unpacked:
+            f["extra_body"].append(", ".join(f"self.{a['name']}" for a in unpacked) + " = " + ", ".join(a["value"] for a in unpacked))
         if ex.get("subscript"):
             f["extra_body"] += ['self.__dict__["extra_key"] = 1', "self.__dict__['a'], self.__dict__['b'] = 1, 2"]
         lines += func_src(f, inner, style)
@@ -795,6 +846,8 @@ def module_src(m, style: str) -> str:
         lines.append(f'"""{m["doc"]}"""')
     lines += ["from __future__ import annotations", "import sys", "from typing import TYPE_CHECKING, Any, Callable, Literal, Optional, Union, overload",
               "from collections.abc import Collection, Mapping, Sequence", "from enum import Enum", ""]
+    for q in m.get("plain_imports", []):
+        lines.append(f"import {q}")
     refs: set = set()
 
     def walk_f(f):
@@ -851,6 +904,7 @@ def module_src(m, style: str) -> str:
     for f in m["functions"]:
         lines += func_src(f, "", style)
         lines.append("")
+    lines += m.get("raw_tail", [])       # verbatim source (constructs the specification language has no term for)
     ma = m.get("member_access")
     if ma:
         lines.append(f"import {ma['module']} as _zz_m")
@@ -864,10 +918,13 @@ def module_src(m, style: str) -> str:
     return "\n".join(lines) + "\n"
 
 
-def init_src(entries) -> str:
+def init_src(entries, pkg_qname: str = "") -> str:
     lines = []
     for e in entries:
-        if e["form"] == "name":
+        if e["form"] == "name" and e.get("relative") and e["module"].startswith(pkg_qname + "."):
+            # `from .sub.mod import x` — the import is stored the way it is written
+            lines.append(f"from .{e['module'][len(pkg_qname) + 1:]} import {e['name']}" + (f" as {e['alias']}" if e["alias"] else ""))
+        elif e["form"] == "name":
             lines.append(f"from {e['module']} import {e['name']}" + (f" as {e['alias']}" if e["alias"] else ""))
         elif e["form"] == "star":
             lines.append(f"from {e['module']} import *")
@@ -880,7 +937,7 @@ def init_src(entries) -> str:
 def render(pkg) -> dict[str, str]:
     files = {}
     for p, entries in pkg["inits"].items():
-        files[p + "/__init__.py"] = init_src(entries)
+        files[p + "/__init__.py"] = init_src(entries, p.replace("/", "."))
     for m in pkg["modules"]:
         files["/".join(m["pkg"] + [m["name"] + ".py"])] = module_src(m, pkg["style"])
     return files
